@@ -1,3 +1,8 @@
+import Harper.Driver.DictIO
+import Harper.Driver.Mask
+import Harper.Driver.LintGroup
+import Harper.Driver.LexExt
+import Harper.Driver.EditDistance
 import Harper.Driver.Pattern
 import Harper.Driver.Ignore
 import Harper.Driver.Title
@@ -12,41 +17,67 @@ import Harper.Driver.Spell
 namespace Harper.Driver
 
 def handlers : List (String × (List String → String)) := [
-  ("ro", handleRo),
-  ("ri", handleRi),
-  ("lex", handleLex),
-  ("acc", handleAcc),
-  ("f64", handleF64),
-  ("apply", handleApply),
-  ("rebase", handleRebase),
-  ("tokspan", handleTokSpan),
-  ("fixall", handleFixAll),
-  ("substall", handleSubstAll),
-  ("sfx", handleSfx),
-  ("fromchars", handleFromChars),
-  ("tochars", handleToChars),
-  ("nsrule", handleNsRule),
-  ("esc", handleEsc),
-  ("unq", handleUnq),
-  ("lines", handleLines),
-  ("rdlog", handleRdlog),
-  ("wlog", handleWlog),
-  ("rlog", handleRlog),
-  ("sum", handleSum),
-  ("i2p", handleI2p), ("p2i", handleP2i), ("s2r", handleS2r), ("r2s", handleR2s),
-  ("edit", handleEdit), ("sel", handleSel), ("sapply", handleSpliceApply),
-  ("cdec", handleCdec), ("capply", handleCapply),
-  ("ig", handleIg),
-  ("ce", handleCe),
-  ("tc", handleTc),
-  ("pat", handlePat),
-  ("roc", handleRoc),
-  ("fam", handleFam),
-  ("lint", handleLint),
-  ("chunks", handleChunks),
-  ("pata", handlePatA),
-  ("roca", handleRocA),
-  ("fama", handleFamA)
+  ("ro", Overlaps.handleRo),
+  ("ri", Overlaps.handleRi),
+  ("lex", Lex.handleLex),
+  ("acc", Spell.handleAcc),
+  ("f64", Lex.handleF64),
+  ("apply", Suggestion.handleApply),
+  ("rebase", Suggestion.handleRebase),
+  ("tokspan", Suggestion.handleTokSpan),
+  ("fixall", Suggestion.handleFixAll),
+  ("substall", Suggestion.handleSubstAll),
+  ("sfx", NumberSuffix.handleSfx),
+  ("fromchars", NumberSuffix.handleFromChars),
+  ("tochars", NumberSuffix.handleToChars),
+  ("nsrule", NumberSuffix.handleNsRule),
+  ("esc", Stats.handleEsc),
+  ("unq", Stats.handleUnq),
+  ("lines", Stats.handleLines),
+  ("rdlog", Stats.handleRdlog),
+  ("wlog", Stats.handleWlog),
+  ("rlog", Stats.handleRlog),
+  ("sum", Stats.handleSum),
+  ("i2p", PosConv.handleI2p), ("p2i", PosConv.handleP2i), ("s2r", PosConv.handleS2r), ("r2s", PosConv.handleR2s),
+  ("edit", PosConv.handleEdit), ("sel", PosConv.handleSel), ("sapply", PosConv.handleSpliceApply),
+  ("cdec", PosConv.handleCdec), ("capply", PosConv.handleCapply),
+  ("ig", Ignore.handleIg),
+  ("ce", Ignore.handleCe),
+  ("tc", Title.handleTc),
+  ("pat", Pattern.handlePat),
+  ("roc", Pattern.handleRoc),
+  ("fam", Pattern.handleFam),
+  ("lint", Pattern.handleLint),
+  ("chunks", Pattern.handleChunks),
+  ("pata", Pattern.handlePatA),
+  ("roca", Pattern.handleRocA),
+  ("fama", Pattern.handleFamA),
+  ("ed", EditDistance.handleEd),
+  ("edn", EditDistance.handleEdn),
+  ("dq", EditDistance.handleDq),
+  ("mq", EditDistance.handleMq),
+  ("fz", EditDistance.handleFz),
+  ("fzall", EditDistance.handleFzAll),
+  ("fzf", EditDistance.handleFzf),
+  ("fzfall", EditDistance.handleFzfAll),
+  ("mfz", EditDistance.handleMfz),
+  ("lexfull", LexExt.handleLexFull),
+  ("extlex", LexExt.handleExtLex),
+  ("cfg", LintGroup.handleCfg),
+  ("lg", LintGroup.handleLg),
+  ("spell", LintGroup.handleSpell),
+  ("b2c", Mask.handleB2c),
+  ("tsmask", Mask.handleTsMask),
+  ("mws", Mask.handleMws),
+  ("maskparse", Mask.handleMaskParse),
+  ("unit", Mask.handleUnit),
+  ("jsdoc", Mask.handleJsdoc),
+  ("woi", Mask.handleWoi),
+  ("lhs", Mask.handleLhs),
+  ("gitcut", Mask.handleGitCut),
+  ("cursor", Mask.handleCursor),
+  ("mdtrav", Mask.handleMdTrav),
+  ("dio", DictIO.handleDio), ("dload", DictIO.handleDload), ("dsave", DictIO.handleDsave), ("dchunk", DictIO.handleDchunk)
 ]
 
 def handle (line : String) : String :=
